@@ -241,7 +241,7 @@ ALWAYS_CUSTOM = ("custom_dimensions_flag", "custom_clean_area_flag")  # tiny fra
 def synthetic_columns(draw, cf):
     """(column json, meta) for the main stratum."""
     col, kinds = {"level": {"v": [SYN_LEVEL]}}, {}
-    tight = draw(st.sampled_from(["loose", "loose", "medium", "medium", "tight", "one_trivial"]))
+    tight = draw(st.sampled_from(["loose", "loose", "loose", "medium", "medium", "tight", "one_trivial", "one_trivial"]))
     K = KINDS["loose" if tight == "one_trivial" else tight]
     kinds["tightness"] = tight
     vp = cf["video_parameters"]
@@ -253,6 +253,8 @@ def synthetic_columns(draw, cf):
             kinds[k], col[k] = value_cell(draw, k, triv[k], ["restrict"] if k == victim else K["trivial"])
         else:  # key of the other profile: never read
             col[k] = draw(st.sampled_from(["any", {"v": []}]))
+    if victim:
+        kinds["victim"] = victim
     for k in FLAG_KEYS:
         kind = draw(st.sampled_from(K["always_custom_flag"] if k in ALWAYS_CUSTOM else K["flag"]))
         kinds[k] = kind
@@ -492,12 +494,14 @@ def body(case, col):
     nrestrict = restricting_encoder_cells(kinds)
     trivial_restricted = [k for k in TRIVIAL_KEYS if kinds.get(k) in ("restrict", "empty")]
     for k, kind in kinds.items():
-        if k in ("tightness", "near"):
+        if k in ("tightness", "near", "victim"):
             continue
         lab.append("cell:%s:%s" % (key_class(k), kind))
     lab.append("restricting_encoder_cells:%s" % (nrestrict if nrestrict < 6 else "6+"))
     if "tightness" in kinds:
         lab.append("table:%s:%s" % (kinds["tightness"], outcome))
+    if "victim" in kinds:
+        lab.append("one_trivial:%s:%s" % (kinds["victim"], outcome))
     if stratum == "real":
         match = [b for b in range(23) if not H.perturbed_groups(cf["video_parameters"], b)]
         lab += ["real:level:%d" % int(cf["level"]), "real:base:%s" % (match[0] if match else "customised"),
